@@ -85,18 +85,22 @@ struct Flavour
     size_t esz = 0, cap = 0, align = 1;
     char *zone = nullptr;                // the zone the pool is currently bound to
     char *zones[2] = {nullptr, nullptr}; // flavours that can be re-initialised own two exactly-sized zones
+    char *zalloc[2] = {nullptr, nullptr};
     int zi = 0;
     virtual ~Flavour()
     {
-        delete[] zones[0];
-        delete[] zones[1];
+        delete[] zalloc[0];
+        delete[] zalloc[1];
     }
-    void make_zones()
+    // off: the zone starts `off` bytes into the heap block (a zone carved out of a char array need not be
+    // pointer-aligned); it still ends exactly at the end of the block (ASan sees one byte too far)
+    void make_zones(size_t off = 0)
     {
         for (int i = 0; i < 2; i++)
         {
-            zones[i] = new char[esz * cap];
-            memset(zones[i], 0xEE, esz * cap);
+            zalloc[i] = new char[off + esz * cap];
+            memset(zalloc[i], 0xEE, off + esz * cap);
+            zones[i] = zalloc[i] + off;
         }
         zone = zones[zi = 0];
     }
@@ -118,11 +122,11 @@ struct Flavour
 struct CFlavour : Flavour
 {
     struct pool_head h;
-    CFlavour(size_t e, size_t c)
+    CFlavour(size_t e, size_t c, size_t off = 0)
     {
         esz = e;
         cap = c;
-        make_zones();
+        make_zones(off);
         pool_init(&h);
         pool_engage(&h, zone, e * c, e);
     }
@@ -160,11 +164,11 @@ struct CFlavour : Flavour
 struct XFlavour : Flavour
 {
     igris::pool p;
-    XFlavour(size_t e, size_t c)
+    XFlavour(size_t e, size_t c, size_t off = 0)
     {
         esz = e;
         cap = c;
-        make_zones();
+        make_zones(off);
         p.init(zone, e * c, e);
     }
     bool can_reinit() override { return true; }
@@ -325,10 +329,24 @@ struct Conf
     string name;
     size_t data; // bytes of a live cell the caller owns
     std::function<Flavour *()> make;
+    size_t cap = 99; // cells (the two-pool universes use the small ones)
+};
+
+// ---------------------------------------------------------------- what a model offers to the two-pools universe
+typedef std::pair<const char *, const char *> Range;
+struct PairAble : mc::Model
+{
+    string sfx;        // appended to the flavour name in signatures ("_pair" in the two-pools universes)
+    unsigned inst = 0; // which of the two pools
+    virtual bool is_init(int o) = 0;   // op chooses the configuration
+    virtual bool pair_conf(int o) = 0; // ... and the configuration is small enough for the product search
+    virtual bool configured() = 0;
+    virtual string recheck() = 0; // everything observable about this pool against its shadow: "" or "<kind>: what"
+    virtual void live_ranges(vector<Range> &out) = 0;
 };
 
 // ---------------------------------------------------------------- the model
-struct PoolModel : mc::Model
+struct PoolModel : PairAble
 {
     string flav; // c_pool | cxx_pool | static_object_pool
     vector<Conf> confs;
@@ -414,7 +432,49 @@ struct PoolModel : mc::Model
         }
         return true;
     }
-    string sig(const char *cls, const char *kind) { return "C10." + flav + "." + cls + "." + kind; }
+    string sig(const char *cls, const char *kind) { return "C10." + flav + sfx + "." + cls + "." + kind; }
+    bool is_init(int o) override { return o < nconf() || o >= base_ops(); }
+    int conf_of(int o) { return o < nconf() ? o : nconf() + o - base_ops(); }
+    bool pair_conf(int o) override { return is_init(o) && confs[conf_of(o)].cap <= (size_t)(mc::thorough() ? 3 : 2); }
+    bool configured() override { return conf >= 0; }
+    void live_ranges(vector<Range> &out) override
+    {
+        if (conf < 0)
+            return;
+        for (size_t i = 0; i < f->cap; i++)
+            if (live_tag[i] >= 0)
+                out.push_back({f->zone + i * f->esz, f->zone + (i + 1) * f->esz});
+    }
+    string recheck() override
+    {
+        if (conf < 0)
+            return "";
+        g_reg = &reg;
+        vector<int> ord;
+        return observe_all(ord);
+    }
+    // everything observable against the shadow; "" or "<kind>: what"
+    string observe_all(vector<int> &ord)
+    {
+        string why;
+        if (!g_reg->errs.empty())
+            return g_reg->errs[0];
+        if (!walk(ord, why))
+            return "free_list_corrupt: " + why;
+        for (int c : ord)
+            if (live_tag[c] >= 0)
+                return mc::fmt("live_cell_on_free_list: live cell %d is on the free list", c);
+        for (size_t i = 0; i < f->cap; i++)
+        {
+            if (live_tag[i] < 0)
+                continue;
+            for (size_t j = 0; j < data; j++)
+                if ((unsigned char)f->zone[i * f->esz + j] != pat((unsigned)live_tag[i], (unsigned)j))
+                    return mc::fmt("contents: live cell %zu changed at byte %zu (%02x, written %02x)", i, j, (unsigned char)f->zone[i * f->esz + j],
+                                   pat((unsigned)live_tag[i], (unsigned)j));
+        }
+        return f->observers(live_tag);
+    }
     string state_str()
     {
         vector<int> ord;
@@ -426,23 +486,6 @@ struct PoolModel : mc::Model
                 s += mc::fmt("%zu ", i);
         return s + "]";
     }
-    bool contents_ok(const char *cls, int o)
-    {
-        for (size_t i = 0; i < f->cap; i++)
-        {
-            if (live_tag[i] < 0)
-                continue;
-            for (size_t j = 0; j < data; j++)
-                if ((unsigned char)f->zone[i * f->esz + j] != pat((unsigned)live_tag[i], (unsigned)j))
-                {
-                    mc::violation(sig(cls, "contents"), "after %s: live cell %zu changed at byte %zu (%02x, written %02x); %s", opname(o).c_str(), i, j,
-                                  (unsigned char)f->zone[i * f->esz + j], pat((unsigned)live_tag[i], (unsigned)j), state_str().c_str());
-                    return false;
-                }
-        }
-        return true;
-    }
-
     bool apply(int o) override
     {
         g_reg = &reg;
@@ -478,6 +521,7 @@ struct PoolModel : mc::Model
                 if (walk(ord, why) && !ord.empty())
                     tag = (unsigned)ord[0];
             }
+            tag += 64 * inst; // the two pools of a pair write different patterns
             long c0 = g_reg->ctors;
             char *q = (char *)f->get(tag);
             if (full)
@@ -571,31 +615,10 @@ struct PoolModel : mc::Model
     bool after(const char *cls, int o)
     {
         vector<int> ord;
-        string why;
-        if (!g_reg->errs.empty())
-        {
-            const string &e = g_reg->errs[0];
-            mc::violation(sig(cls, e.substr(0, e.find(':')).c_str()), "after %s: %s", opname(o).c_str(), e.c_str());
-            return true;
-        }
-        if (!walk(ord, why))
-        {
-            mc::violation(sig(cls, "free_list_corrupt"), "after %s: %s; %s", opname(o).c_str(), why.c_str(), state_str().c_str());
-            return true;
-        }
-        for (int c : ord)
-            if (live_tag[c] >= 0)
-            {
-                mc::violation(sig(cls, "live_cell_on_free_list"), "after %s: live cell %d is on the free list; %s", opname(o).c_str(), c, state_str().c_str());
-                return true;
-            }
-        if (!contents_ok(cls, o))
-            return true;
-        string w = f->observers(live_tag);
+        string w = observe_all(ord);
         if (!w.empty())
         {
-            string kind = w.substr(0, w.find(':'));
-            mc::violation(sig(cls, kind.c_str()), "after %s: %s; %s", opname(o).c_str(), w.c_str(), state_str().c_str());
+            mc::violation(sig(cls, w.substr(0, w.find(':')).c_str()), "after %s: %s; %s", opname(o).c_str(), w.c_str(), state_str().c_str());
             return true;
         }
         // history-dependent free-list order: not the order any alloc-only history leaves behind
@@ -628,7 +651,7 @@ struct PoolModel : mc::Model
 
 template <class T, size_t N> static Conf sconf(const char *tn)
 {
-    return Conf{mc::fmt("%s x %zu", tn, N), sizeof(T), [] { return (Flavour *)new SFlavour<T, N>; }};
+    return Conf{mc::fmt("%s x %zu", tn, N), sizeof(T), [] { return (Flavour *)new SFlavour<T, N>; }, N};
 }
 template <class T> static void sconfs(vector<Conf> &v, const char *tn, int mx)
 {
@@ -844,6 +867,7 @@ struct MultiZone
     vector<char> engaged;
     vector<int> live_tag; // per global cell: -1 free / not engaged, else tag
     size_t nlive = 0;
+    unsigned tag_bias = 0;
 
     MultiZone(size_t e, const vector<size_t> &cells) : esz(e), zn(cells)
     {
@@ -979,9 +1003,9 @@ struct MultiZone
             return "outside_zone: pool_alloc() returned a block " + w;
         if (live_tag[g] >= 0)
             return mc::fmt("overlap: pool_alloc() returned cell %ld which is live (%zu of %zu live)", g, nlive, capacity());
-        live_tag[g] = (int)g;
+        live_tag[g] = (int)(g + tag_bias);
         for (size_t j = 0; j < esz; j++)
-            q[j] = (char)pat((unsigned)g, (unsigned)j);
+            q[j] = (char)pat((unsigned)(g + tag_bias), (unsigned)j);
         nlive++;
         got = g;
         return "";
@@ -997,11 +1021,26 @@ struct MultiZone
 static vector<size_t> zone_cells() { return mc::thorough() ? vector<size_t>{3, 1, 3} : vector<size_t>{2, 1, 3}; }
 static const size_t ES_Z[] = {8, 12, 24};
 
-struct ZonesModel : mc::Model
+struct ZonesModel : PairAble
 {
     static const int MAXTOT = 7, NZ = 3;
     std::unique_ptr<MultiZone> m;
     int conf = -1;
+    vector<size_t> cells;
+    explicit ZonesModel(vector<size_t> c = zone_cells()) : cells(std::move(c)) {}
+    string base() { return "C10.c_pool_zones" + sfx + "."; }
+    bool is_init(int o) override { return o < 3; }
+    bool pair_conf(int o) override { return o == 0 || o == 1; }
+    bool configured() override { return conf >= 0; }
+    string recheck() override { return conf < 0 ? "" : m->check(true); }
+    void live_ranges(vector<Range> &out) override
+    {
+        if (conf < 0)
+            return;
+        for (size_t g = 0; g < m->total(); g++)
+            if (m->live_tag[g] >= 0)
+                out.push_back({m->addr(g), m->addr(g) + m->esz});
+    }
     // op table: init[esz] x3 | pool_alloc | pool_free(cell 0..MAXTOT-1) | pool_engage(zone 0..2)
     int nops() override { return 3 + 1 + MAXTOT + NZ; }
     string opname(int o) override
@@ -1015,7 +1054,7 @@ struct ZonesModel : mc::Model
         if (o < MAXTOT)
             return mc::fmt("pool_free(cell %d)", o);
         o -= MAXTOT;
-        return mc::fmt("pool_engage(zone %d: %zu cells) without pool_init", o, zone_cells()[o]);
+        return mc::fmt("pool_engage(zone %d: %zu cells) without pool_init", o, o < (int)cells.size() ? cells[o] : (size_t)0);
     }
     string state_str()
     {
@@ -1038,7 +1077,7 @@ struct ZonesModel : mc::Model
             w = m->check(true);
         if (!w.empty())
         {
-            mc::violation(string("C10.c_pool_zones.") + cls + "." + w.substr(0, w.find(':')), "after %s: %s; %s", opname(o).c_str(), w.c_str(), state_str().c_str());
+            mc::violation(base() + cls + "." + w.substr(0, w.find(':')), "after %s: %s; %s", opname(o).c_str(), w.c_str(), state_str().c_str());
             return true;
         }
         vector<int> ord;
@@ -1061,7 +1100,8 @@ struct ZonesModel : mc::Model
                 return false;
             conf = o;
             mc::crash_context("C10.c_pool_zones.init");
-            m.reset(new MultiZone(ES_Z[o], zone_cells()));
+            m.reset(new MultiZone(ES_Z[o], cells));
+            m->tag_bias = 64 * inst;
             return finish("init", o0, "");
         }
         if (conf < 0)
@@ -1089,7 +1129,7 @@ struct ZonesModel : mc::Model
             return finish("put", o0, "");
         }
         o -= MAXTOT;
-        if (m->engaged[o])
+        if (o >= (int)cells.size() || m->engaged[o])
             return false; // a zone is engaged once
         bool had_free = m->capacity() > m->nlive;
         const char *cls = had_free ? "engage_with_free_blocks" : m->capacity() ? "engage_when_drained" : "engage_first";
@@ -1300,9 +1340,28 @@ template <size_t N> struct NodePoolImpl : NodePool
     char *zone() override { return (char *)p->storage.data(); }
 };
 
-struct NestedModel : mc::Model
+struct NestedModel : PairAble
 {
     static const int MAXN = 5;
+    bool is_init(int o) override { return o <= MAXN; }
+    bool pair_conf(int o) override { return o <= 2; }
+    bool configured() override { return conf >= 0; }
+    void live_ranges(vector<Range> &out) override
+    {
+        if (conf < 0)
+            return;
+        for (size_t c = 0; c < role.size(); c++)
+            if (role[c] != -1)
+                out.push_back({np->zone() + c * np->esz, np->zone() + c * np->esz + sizeof(Node)});
+    }
+    string recheck() override
+    {
+        if (conf < 0)
+            return "";
+        g_nreg = &reg;
+        vector<int> ord;
+        return observe_all(ord);
+    }
     std::unique_ptr<NodePool> np;
     NodeReg reg;
     int conf = -1;
@@ -1368,25 +1427,24 @@ struct NestedModel : mc::Model
     }
     bool bad(const char *cls, int o, const string &w)
     {
-        mc::violation(string("C10.static_object_pool_nested.") + cls + "." + w.substr(0, w.find(':')), "after %s: %s; %s", opname(o).c_str(), w.c_str(), state_str().c_str());
+        mc::violation("C10.static_object_pool_nested" + sfx + "." + cls + "." + w.substr(0, w.find(':')), "after %s: %s; %s", opname(o).c_str(), w.c_str(), state_str().c_str());
         return true;
     }
-    bool finish(const char *cls, int o)
+    string observe_all(vector<int> &ord)
     {
         if (!reg.errs.empty())
-            return bad(cls, o, reg.errs[0]);
-        vector<int> ord;
+            return reg.errs[0];
         string why;
         if (!walk(ord, why))
-            return bad(cls, o, "free_list_corrupt: " + why);
+            return "free_list_corrupt: " + why;
         for (int c : ord)
             if (role[c] != -1)
-                return bad(cls, o, mc::fmt("live_cell_on_free_list: live cell %d is on the free list", c));
+                return mc::fmt("live_cell_on_free_list: live cell %d is on the free list", c);
         size_t want = np->cap - nlive();
         if (np->avail() != want || ord.size() != want)
-            return bad(cls, o, mc::fmt("count: avail()=%zu, free list holds %zu cells; capacity %zu - live %d = %zu", np->avail(), ord.size(), np->cap, nlive(), want));
+            return mc::fmt("count: avail()=%zu, free list holds %zu cells; capacity %zu - live %d = %zu", np->avail(), ord.size(), np->cap, nlive(), want);
         if (reg.alive.size() != (size_t)nlive())
-            return bad(cls, o, mc::fmt("lifetime: %zu objects alive, %d cells live", reg.alive.size(), nlive()));
+            return mc::fmt("lifetime: %zu objects alive, %d cells live", reg.alive.size(), nlive());
         // contents of every live object: self-check word, and the children a root holds are the model's
         for (size_t c = 0; c < role.size(); c++)
         {
@@ -1394,16 +1452,24 @@ struct NestedModel : mc::Model
                 continue;
             Node *n = (Node *)(np->zone() + c * np->esz);
             if (n->magic != (NODE_MAGIC ^ (uint64_t)(uintptr_t)n) || !reg.alive.count(n))
-                return bad(cls, o, mc::fmt("contents: live object in cell %zu changed", c));
+                return mc::fmt("contents: live object in cell %zu changed", c);
             if (role[c] >= 0)
             {
                 if (n->nk != (int)kids[c].size())
-                    return bad(cls, o, mc::fmt("contents: root in cell %zu holds %d children, the model %zu", c, n->nk, kids[c].size()));
+                    return mc::fmt("contents: root in cell %zu holds %d children, the model %zu", c, n->nk, kids[c].size());
                 for (int i = 0; i < n->nk; i++)
                     if (cell_of(n->kid[i]) != kids[c][i])
-                        return bad(cls, o, mc::fmt("contents: child %d of the root in cell %zu changed", i, c));
+                        return mc::fmt("contents: child %d of the root in cell %zu changed", i, c);
             }
         }
+        return "";
+    }
+    bool finish(const char *cls, int o)
+    {
+        vector<int> ord;
+        string w = observe_all(ord);
+        if (!w.empty())
+            return bad(cls, o, w);
         for (size_t i = 1; i < ord.size(); i++)
             if (ord[i] > ord[i - 1])
             {
@@ -1524,45 +1590,140 @@ struct NestedModel : mc::Model
     }
 };
 
+// ---------------------------------------------------------------- two pools of the same type alive at once
+// Interleaved histories on two pool objects of the same class / template instance with the same configuration: state
+// shared between instances (a static data member, a function-local static) shows as one pool disturbing the other.
+// After every operation on one pool the OTHER pool is observed completely again, and no live block of one pool may
+// overlap a live block of the other.
+struct PairModel : mc::Model
+{
+    std::unique_ptr<PairAble> a[2];
+    string flav;
+    PairModel(const string &fl, PairAble *x, PairAble *y) : flav(fl)
+    {
+        a[0].reset(x);
+        a[1].reset(y);
+        for (unsigned i = 0; i < 2; i++)
+        {
+            a[i]->sfx = "_pair";
+            a[i]->inst = i;
+        }
+    }
+    // op table: [ops of pool A (its configuration ops configure BOTH pools alike)] [ops of pool B (configuration ops unused)]
+    int n1() { return a[0]->nops(); }
+    int nops() override { return 2 * n1(); }
+    string opname(int o) override
+    {
+        int w = o / n1(), so = o % n1();
+        if (a[0]->is_init(so))
+            return "both pools: " + a[0]->opname(so);
+        return mc::fmt("pool %c: ", 'A' + w) + a[w]->opname(so);
+    }
+    bool apply(int o) override
+    {
+        int w = o / n1(), so = o % n1();
+        if (a[0]->is_init(so))
+        {
+            if (w != 0 || a[0]->configured() || !a[0]->pair_conf(so))
+                return false;
+            if (!a[0]->apply(so))
+                mc::harness_error("C10 pair: configuration op disabled on a fresh model");
+            if (mc::case_has_violation())
+                return true;
+            a[1]->apply(so); // the second pool of the same type, constructed while the first is alive
+            if (mc::case_has_violation())
+                return true;
+            w = 1;
+        }
+        else
+        {
+            if (!a[0]->configured() || !a[w]->apply(so))
+                return false;
+            if (mc::case_has_violation())
+                return true;
+        }
+        // the pool that was not touched must be exactly as it was
+        string r = a[1 - w]->recheck();
+        if (!r.empty())
+        {
+            mc::violation("C10." + flav + "_pair.other_pool." + r.substr(0, r.find(':')), "after %s the OTHER pool (%c) no longer matches its shadow: %s", opname(o).c_str(),
+                          'A' + (1 - w), r.c_str());
+            return true;
+        }
+        r = a[w]->recheck();
+        if (!r.empty())
+        {
+            mc::violation("C10." + flav + "_pair.this_pool." + r.substr(0, r.find(':')), "after %s pool %c no longer matches its shadow once the other pool was observed: %s",
+                          opname(o).c_str(), 'A' + w, r.c_str());
+            return true;
+        }
+        vector<Range> ra, rb;
+        a[0]->live_ranges(ra);
+        a[1]->live_ranges(rb);
+        for (auto &x : ra)
+            for (auto &y : rb)
+                if (x.first < y.second && y.first < x.second)
+                {
+                    mc::violation("C10." + flav + "_pair.overlap_other_pool", "after %s a live block of pool A and a live block of pool B share memory (%ld bytes)", opname(o).c_str(),
+                                  (long)(std::min(x.second, y.second) - std::max(x.first, y.first)));
+                    return true;
+                }
+        if (!ra.empty() && !rb.empty())
+            mc::nontrivial(); // both pools have blocks out
+        return true;
+    }
+    string key() override { return a[0]->key() + " # " + a[1]->key(); }
+};
+
 MC_INIT
 {
     static const size_t ES[] = {8, 16, 24};
     // cells that are not a multiple of alignof(slist_head): the grid is still elemsz (the zone is exactly
     // capacity*elemsz bytes), the links in free cells are then unaligned (fine on this host)
     static const size_t ES2[] = {12, 20};
-    mc::add_bfs("c_pool", [] {
+    static auto mk_c = []() -> PoolModel * {
         vector<Conf> c;
         for (size_t e : ES)
             for (int n = 1; n <= maxcap(); n++)
-                c.push_back(Conf{mc::fmt("elem %zu x %d", e, n), e, [e, n] { return (Flavour *)new CFlavour(e, n); }});
+                c.push_back(Conf{mc::fmt("elem %zu x %d", e, n), e, [e, n] { return (Flavour *)new CFlavour(e, n); }, (size_t)n});
         int np = (int)c.size();
         for (size_t e : ES2)
             for (int n = 1; n <= maxcap(); n++)
-                c.push_back(Conf{mc::fmt("elem %zu x %d", e, n), e, [e, n] { return (Flavour *)new CFlavour(e, n); }});
+                c.push_back(Conf{mc::fmt("elem %zu x %d", e, n), e, [e, n] { return (Flavour *)new CFlavour(e, n); }, (size_t)n});
         // capacity 0: the pool must construct and answer null at once
         for (size_t e : {(size_t)8, (size_t)12, (size_t)16, (size_t)20, (size_t)24})
-            c.push_back(Conf{mc::fmt("elem %zu x 0", e), e, [e] { return (Flavour *)new CFlavour(e, 0); }});
+            c.push_back(Conf{mc::fmt("elem %zu x 0", e), e, [e] { return (Flavour *)new CFlavour(e, 0); }, 0});
+        // zones that do not start on a pointer boundary (carved out of a char array): same oracles, the grid starts at the zone
+        for (size_t off : {(size_t)1, (size_t)4})
+            for (size_t e : {(size_t)8, (size_t)12})
+                for (int n = 1; n <= 3; n++)
+                    c.push_back(Conf{mc::fmt("elem %zu x %d, zone at +%zu", e, n, off), e, [e, n, off] { return (Flavour *)new CFlavour(e, n, off); }, (size_t)n});
         PoolModel *m = new PoolModel("c_pool", c, false, true);
         m->nprimary = np;
-        return std::unique_ptr<mc::Model>(m);
-    });
-    mc::add_bfs("cxx_pool", [] {
+        return m;
+    };
+    static auto mk_x = []() -> PoolModel * {
         vector<Conf> c;
         for (size_t e : ES)
             for (int n = 1; n <= maxcap(); n++)
-                c.push_back(Conf{mc::fmt("elem %zu x %d", e, n), e, [e, n] { return (Flavour *)new XFlavour(e, n); }});
+                c.push_back(Conf{mc::fmt("elem %zu x %d", e, n), e, [e, n] { return (Flavour *)new XFlavour(e, n); }, (size_t)n});
         int np = (int)c.size();
         for (size_t e : ES2)
             for (int n = 1; n <= maxcap(); n++)
-                c.push_back(Conf{mc::fmt("elem %zu x %d", e, n), e, [e, n] { return (Flavour *)new XFlavour(e, n); }});
+                c.push_back(Conf{mc::fmt("elem %zu x %d", e, n), e, [e, n] { return (Flavour *)new XFlavour(e, n); }, (size_t)n});
         // capacity 0: the pool must construct and answer null at once
         for (size_t e : {(size_t)8, (size_t)12, (size_t)16, (size_t)20, (size_t)24})
-            c.push_back(Conf{mc::fmt("elem %zu x 0", e), e, [e] { return (Flavour *)new XFlavour(e, 0); }});
+            c.push_back(Conf{mc::fmt("elem %zu x 0", e), e, [e] { return (Flavour *)new XFlavour(e, 0); }, 0});
+        // zones that do not start on a pointer boundary (carved out of a char array): same oracles, the grid starts at the zone
+        for (size_t off : {(size_t)1, (size_t)4})
+            for (size_t e : {(size_t)8, (size_t)12})
+                for (int n = 1; n <= 3; n++)
+                    c.push_back(Conf{mc::fmt("elem %zu x %d, zone at +%zu", e, n, off), e, [e, n, off] { return (Flavour *)new XFlavour(e, n, off); }, (size_t)n});
         PoolModel *m = new PoolModel("cxx_pool", c, true, true);
         m->nprimary = np;
-        return std::unique_ptr<mc::Model>(m);
-    });
-    mc::add_bfs("static_object_pool", [] {
+        return m;
+    };
+    static auto mk_s = []() -> PoolModel * {
         vector<Conf> c;
         int mx = maxcap();
         sconfs<Tracked<4, 4>>(c, "T(size 4, align 4)", mx); // smaller than a free-list link: the cell is larger than T
@@ -1579,8 +1740,11 @@ MC_INIT
         c.push_back(sconf<Tracked<32, 16>, 0>("T(size 32, align 16)"));
         PoolModel *m = new PoolModel("static_object_pool", c, false, false); /* no reset in its API */
         m->nprimary = np;
-        return std::unique_ptr<mc::Model>(m);
-    });
+        return m;
+    };
+    mc::add_bfs("c_pool", [] { return std::unique_ptr<mc::Model>(mk_c()); });
+    mc::add_bfs("cxx_pool", [] { return std::unique_ptr<mc::Model>(mk_x()); });
+    mc::add_bfs("static_object_pool", [] { return std::unique_ptr<mc::Model>(mk_s()); });
     // ---- large capacities (tree shape; see struct Large)
     mc::add_check("pools_large", [] {
         size_t ncap = mc::thorough() ? sizeof CAPS_T / sizeof *CAPS_T : sizeof CAPS_Q / sizeof *CAPS_Q;
@@ -1626,5 +1790,14 @@ MC_INIT
     mc::add_check("c_pool_zones_large", zones_large_case);
     // ---- elements whose constructor / destructor call the pool again
     mc::add_bfs("static_object_pool_nested", [] { return std::unique_ptr<mc::Model>(new NestedModel); });
+    // ---- two pools of the same type alive at once (see PairModel); small configurations, interleaved histories
+    mc::add_bfs("c_pool_pair", [] { return std::unique_ptr<mc::Model>(new PairModel("c_pool", mk_c(), mk_c())); });
+    mc::add_bfs("cxx_pool_pair", [] { return std::unique_ptr<mc::Model>(new PairModel("cxx_pool", mk_x(), mk_x())); });
+    mc::add_bfs("static_object_pool_pair", [] { return std::unique_ptr<mc::Model>(new PairModel("static_object_pool", mk_s(), mk_s())); });
+    mc::add_bfs("c_pool_zones_pair", [] {
+        return std::unique_ptr<mc::Model>(new PairModel("c_pool_zones", new ZonesModel(vector<size_t>{1, 1}), new ZonesModel(vector<size_t>{1, 1})));
+    });
+    mc::add_bfs("static_object_pool_nested_pair",
+                [] { return std::unique_ptr<mc::Model>(new PairModel("static_object_pool_nested", new NestedModel, new NestedModel)); });
 }
 MC_MAIN
